@@ -16,6 +16,7 @@ type Val struct {
 	Tm   *smt.Term // value term; for pointers an Int reference (may be nil when Addr is set)
 	Addr *Addr     // symbolic address for pointer values whose target is statically known
 	Tup  []Val     // tuple components (multi-value results)
+	Tok  *Token    // for string values: the escape-sequence template they were formatted from
 }
 
 type addrKind int
